@@ -128,8 +128,17 @@ def run_property(prop, tier, groups, required_covers=None, assumptions=None, bou
                 bad = nr["outcome"] == "panic"
             elif v["kind"] == "unwind":
                 bad = nr["outcome"] == "timeout"
-            if bad:
+            if bad and v["id"].startswith("coverage:"):
+                # the template space of a struct-level harness is too small for what the parser accepts:
+                # the laws are then not shown for all accepted strings, but no property is violated
+                problems.append("coverage lemma fails (template space too small): %s %s %s inputs=%s" % (
+                    pkg, jr["harness"], v["id"], json.dumps({k: driver.model_string(v["model"], k).decode("latin1") for k in set(x.split("[")[0] for x in v["model"] if "[" in x)})))
+            elif bad:
                 confirmed.append((pkg, jr, v, c, nr))
+            elif nr["outcome"] == "assume_false":
+                unrealised += 1
+                problems.append("counterexample over template values is not realisable through the public API (unrealised): %s %s %s model=%s" % (
+                    pkg, jr["harness"], v["id"], json.dumps(v["model"])[:300]))
             else:
                 unrealised += 1
                 problems.append("engine counterexample did not reproduce natively (engine_mismatch): %s %s %s model=%s native=%s" % (
@@ -151,6 +160,13 @@ def run_property(prop, tier, groups, required_covers=None, assumptions=None, bou
             continue
         for (jr, w), c, nr in zip(items, cases, res):
             ok = nr["outcome"] in ("ok",)
+            if nr["outcome"] == "assume_false":
+                continue  # a template value that no string parses to: nothing to compare
+            if nr["outcome"] == "assert_fail":
+                # the model of a witness may violate a later assertion; that is fine as long as the engine
+                # reported a violation of that assertion itself
+                reported = set(v["id"] for v in (jr.get("violations") or []))
+                ok = all(f in reported for f in (nr.get("failed") or []))
             exp = w.get("observed") or {}
             got = nr.get("observed") or {}
             for k, v in exp.items():
@@ -250,6 +266,15 @@ def run_property(prop, tier, groups, required_covers=None, assumptions=None, bou
         job_table.append({"pkg": jr["_pkg"], "harness": jr.get("harness"), "params": jr.get("params"), "paths": jr.get("paths"),
                           "obligations": jr.get("obligations"), "discharged": jr.get("discharged"), "queries": jr.get("queries"),
                           "wall_s": round(jr.get("wall_s", 0), 2), "complete": jr.get("complete")})
+    agg = {}
+    for jr in all_results:
+        k = "%s sys=%s" % (jr.get("harness"), (jr.get("params") or {}).get("sys"))
+        a = agg.setdefault(k, {"jobs": 0, "paths": 0, "queries": 0, "wall_s": 0.0, "obligations": 0})
+        a["jobs"] += 1
+        a["paths"] += jr.get("paths", 0)
+        a["queries"] += jr.get("queries", 0)
+        a["obligations"] += jr.get("obligations", 0)
+        a["wall_s"] = round(a["wall_s"] + jr.get("wall_s", 0), 1)
     ev = {
         "property_id": prop,
         "tier": tier,
@@ -266,7 +291,9 @@ def run_property(prop, tier, groups, required_covers=None, assumptions=None, bou
             "explanation": "bounded symbolic execution of the go/ssa form of /repo's current sources; every feasible path inside the "
                            "stated bounds is explored (states = feasible paths, transitions = symbolic branch decisions) and each "
                            "assertion is a solver query over all input values on that path",
-            "jobs": job_table[:400],
+            "jobs": job_table[:150],
+            "jobs_total": len(job_table),
+            "by_harness": agg,
             "outcomes": outcomes,
             "cover_goals": covers,
             "outside_bound": outside,
